@@ -46,6 +46,8 @@ def mpi (s : Stack) : Bool × Option Nat × List (Eventgroup × Addr) × List (A
 @[simp] theorem mpi_with_outgoing_sendLog (s : Stack) (x : Outgoing) (y : List (Dest × (Bool × Nat))) : mpi { s with outgoing := x, sendLog := y } = mpi s := rfl
 @[simp] theorem mpi_with_findLog (s : Stack) (x : List (Nat × Nat)) : mpi { s with findLog := x } = mpi s := rfl
 @[simp] theorem mpi_with_findMarks (s : Stack) (x : List (Nat × Nat)) : mpi { s with findMarks := x } = mpi s := rfl
+@[simp] theorem mpi_with_ansLog (s : Stack) (x : List (Nat × Addr × Nat × Nat)) : mpi { s with ansLog := x } = mpi s := rfl
+@[simp] theorem mpi_logAnswer (s : Stack) (i : Nat) (a : Addr) (d : Nat) : mpi (s.logAnswer i a d) = mpi s := rfl
 @[simp] theorem mpi_markFind (s : Stack) (n : Nat) : mpi (s.markFind n) = mpi s := rfl
 @[simp] theorem mpi_with_offLog (s : Stack) (x : List (Nat × OEv × Nat)) : mpi { s with offLog := x } = mpi s := rfl
 @[simp] theorem mpi_logOffer (s : Stack) (i : Nat) (e : OEv) : mpi (s.logOffer i e) = mpi s := rfl
